@@ -18,6 +18,7 @@
 EXTENDS ShellGrammar, Json, SequencesExt
 
 CONSTANT MaxDev
+CONSTANT StartSym      \* "prog" (the whole dialect) or a focus nonterminal such as "hdprog"
 
 VARIABLES form, toks, sk, dev, drv
 vars == <<form, toks, sk, dev, drv>>
@@ -29,7 +30,7 @@ Flush(f, ts, s) ==
     ELSE IF Head(f).k = "t" THEN Flush(Tail(f), Append(ts, Head(f)), s)
     ELSE Flush(Tail(f), ts, Append(s, Head(f).m))
 
-Start == NT("prog", 0, TRUE, FALSE, FALSE, "")
+Start == NT(StartSym, 0, TRUE, FALSE, FALSE, "")
 
 Init == /\ form = <<Start>> /\ toks = <<>> /\ sk = <<>> /\ dev = 0 /\ drv = <<>>
 
@@ -74,7 +75,7 @@ RECURSIVE HdList(_, _)
 HdList(ts, i) == IF i > Len(ts) THEN <<>> ELSE ts[i].hd \o HdList(ts, i + 1)
 
 CaseRec == LET ts == WithPre(toks) IN
-           [src |-> Render(ts), sk |-> sk, dev |-> dev, drv |-> drv, ntok |-> Len(toks)]
+           [src |-> Render(ts), sk |-> sk, dev |-> dev, drv |-> drv, ntok |-> Len(toks), hd |-> HdList(ts, 1)]
 
 EmitCase == Complete => PrintT(<<"CASE", ToJson(CaseRec)>>)
 
